@@ -33,7 +33,9 @@ def fault_jobs(rng, nh, thorough, per_op=40):
     hist.append((1, [{"op": "insert", "p": g.point(0), "m": -1, "compact": 0},
                      {"op": "insert_multiple", "ps": [g.point(t=min(gen.NT - 1, 1 + k // 12)) for k in range(300)], "m": -1, "bad": 0}], g))
     nh = len(hist)
-    base = traces.record_all([("h%d" % i, "csv", ai, ops, [], 3, 3, {"io": True}) for i, (ai, ops, g) in enumerate(hist)])
+    # every eighth history runs on a database opened with access_mode="w+" (emptied when opened, never by a later reopen)
+    hopts = [({"mode": "w+"}, {"csv": {"access_mode": "w+"}}) if i % 8 == 5 else ({}, {}) for i in range(len(hist))]
+    base = traces.record_all([("h%d" % i, "csv", ai, ops, [], 3, 3, dict(hopts[i][0], io=True)) for i, (ai, ops, g) in enumerate(hist)])
     jobs = []
     for i, (ai, ops, g) in enumerate(hist):
         tr = base[i]
@@ -55,7 +57,7 @@ def fault_jobs(rng, nh, thorough, per_op=40):
                 name = calls[k].split(":")[0]
                 variants = [0] + ([1] if name in AFTER_CALLS else [])
                 for after in variants:
-                    jobs.append(("h%d-op%d-k%d-%d" % (i, j, k, after), ai, ops, j, k, after, g.point(), reads))
+                    jobs.append(("h%d-op%d-k%d-%d" % (i, j, k, after), ai, ops, j, k, after, g.point(), reads, hopts[i][1]))
     return jobs
 
 
